@@ -2,6 +2,7 @@ SPECIFICATION Spec
 CONSTANTS MaxLen = 2
  Area = "dis"
 INVARIANT Total
+INVARIANT RunIsIncremental
 INVARIANT OutputGrows
 INVARIANT DisabledCallHasNoEffect
 INVARIANT IfOnDisablerSkips
